@@ -1,6 +1,8 @@
 import GrmVerif.Drive.C19
 import GrmVerif.Drive.C17
 import GrmVerif.Drive.C09
+import GrmVerif.Drive.C11
+import GrmVerif.Drive.C12
 /-! `gvdriver`: one request per line `<prop> <case-id> <nat>…`; replies are prefixed with the case id. -/
 open GrmVerif.Drive
 
@@ -9,6 +11,8 @@ def dispatch (prop : String) (args : List Nat) : String :=
   | "C19" => C19.handle args
   | "C17" => C17.handle args
   | "C09" => C09.handle args
+  | "C11" => C11.handle args
+  | "C12" => C12.handle args
   | _ => "bad-prop"
 
 def prefixLines (id : String) (s : String) : String :=
